@@ -254,6 +254,26 @@ func (f *fetcher) handleCacheMiss(req *http.Request, key cache.CacheKey, clientH
 	return upFetch, nil
 }
 
+// Fetches a resource that is not in the cache and stores it. A response that turns out not to be
+// storable, or that the cache cannot take, is reported as ErrNotCacheable: every caller then
+// fetches an answer of its own.
+func (f *fetcher) fetchForMiss(req *http.Request, key cache.CacheKey, clientHd *headers.HeaderDirectives) (fetchResult, error) {
+	res, err := f.handleCacheMiss(req, key, clientHd)
+	if err != nil {
+		if isCacheSideError(err) {
+			// The upstream answered, only the cache could not take the response
+			// (full, empty body, write error): serve the client directly instead of failing.
+			return fetchResult{}, ErrNotCacheable
+		}
+		return fetchResult{}, err
+	}
+	if res.Type == fetchTypeDirect {
+		res.Direct.Response.Body.Close()
+		return fetchResult{}, ErrNotCacheable
+	}
+	return res, nil
+}
+
 // Fetches the requested resource either from cache or upstream.
 func (f *fetcher) getFromCacheOrFetch(req *http.Request, key cache.CacheKey, clientHd *headers.HeaderDirectives) (fetchResult, error) {
 	slog.Debug("Trying to get request from cache...")
@@ -262,20 +282,7 @@ func (f *fetcher) getFromCacheOrFetch(req *http.Request, key cache.CacheKey, cli
 	if err != nil {
 		if errors.Is(err, cache.ErrCacheEntryNotFound) {
 			slog.Debug("Cache miss, will fetch from upstream.", "url", req.URL, "key", key)
-			res, err := f.handleCacheMiss(req, key, clientHd)
-			if err != nil {
-				if isCacheSideError(err) {
-					// The upstream answered, only the cache could not take the response
-					// (full, empty body, write error): serve the client directly instead of failing.
-					return fetchResult{}, ErrNotCacheable
-				}
-				return fetchResult{}, err
-			}
-			if res.Type == fetchTypeDirect {
-				res.Direct.Response.Body.Close()
-				return fetchResult{}, ErrNotCacheable
-			}
-			return res, nil
+			return f.fetchForMiss(req, key, clientHd)
 		}
 
 		metrics.Global.Cache.CacheErrors.Increment()
@@ -316,8 +323,14 @@ func (f *fetcher) getFromCacheOrFetch(req *http.Request, key cache.CacheKey, cli
 
 	fetch, err := f.fetchUpstream(up, key, clientHd)
 	if err != nil {
+		if errors.Is(err, ErrUpdateCacheMetadata) {
+			// A 304 that has nothing to renew: the entry was cleaned up, evicted or replaced while the
+			// origin was asked. What is left is a miss, and it is handled as one here, inside the shared
+			// fetch: one unconditional fetch for everybody who waits, instead of one by each of them.
+			slog.Debug("The 304 could not be applied, fetching the resource again.", "url", req.URL, "key", key)
+			return f.fetchForMiss(req, key, clientHd)
+		}
 		if isCacheSideError(err) {
-			// E.g. a 304 for an entry that was evicted meanwhile: fetch again without the cache.
 			return fetchResult{}, ErrNotCacheable
 		}
 		return fetchResult{}, err
